@@ -171,7 +171,7 @@ class Main(Suite):
     name = "main"
     go_cmd = "c08"
     coq_imports = "From GoGit Require Import Model.PackParse."
-    quick_n = 80
+    quick_n = 64
     thorough_n = 1500
     coq_chunk = 8
 
